@@ -10,6 +10,8 @@
 #include "iora/core/logger.hpp"
 #include "iora/network/transport.hpp"
 #include "iora/network/transport_impl.hpp"
+#include "iora/network/http_client.hpp"
+#include "dnspeer.h"
 
 #include <condition_variable>
 #include <mutex>
@@ -77,38 +79,44 @@ extern "C" void harness_run()
 {
   iora::core::Logger::setLevel(iora::core::Logger::Level::Fatal);
   tls::init_deterministic(sim::seed());
+  const bool httpMode = std::string(sim::mode()) == "http";
   const bool ioraClient = std::string(sim::mode()) != "server";
   const std::string cd = tls::cert_dir();
 
-  // ---- the cell
-  bool enabled = sim::draw(10) != 9;
-  bool modeSet = sim::draw(10) != 9;
-  bool reqTls = sim::draw(16) != 15;
-  bool verify = sim::draw(4) != 3;
-  static const char* anchors[] = {"ca", "otherca", "none", "none+system=ca"};
-  std::string anchor = anchors[sim::draw(4)];
-  static const int minv[] = {0, 0, TLS1_VERSION, TLS1_1_VERSION, TLS1_2_VERSION, TLS1_3_VERSION};
-  int cfgMin = minv[sim::draw(6)];
-  static const char* ciphersV[] = {"", "", "DEFAULT:@SECLEVEL=0", "ALL:@SECLEVEL=0"};
-  std::string ciphers = ciphersV[sim::draw(4)];
+  // ---- the cell. Every dimension has a "good" value (index 0) drawn most of the time, so that most cells differ from a working
+  // configuration in one or two dimensions and a fair share of the runs establishes a session.
+  auto biased = [&](unsigned n, unsigned goodPermille) -> unsigned { return sim::draw(1000) < goodPermille ? 0u : 1u + (unsigned)sim::draw(n - 1); };
+  bool enabled = biased(2, 930) == 0;
+  bool modeSet = biased(2, 930) == 0;
+  bool reqTls = biased(2, 950) == 0;
+  bool verify = biased(2, 700) == 0;
+  static const char* anchors[] = {"ca", "otherca", "none"};
+  std::string anchor = anchors[biased(3, 600)];
+  bool systemCa = biased(2, 650) == 1; // the "system" trust store (used by a client only when no CA is configured) contains the right CA
+  static const int minv[] = {0, TLS1_VERSION, TLS1_1_VERSION, TLS1_2_VERSION, TLS1_3_VERSION};
+  int cfgMin = minv[biased(5, 400)];
+  static const char* ciphersV[] = {"", "DEFAULT:@SECLEVEL=0", "ALL:@SECLEVEL=0"};
+  std::string ciphers = ciphersV[biased(3, 500)];
   static const char* ownClient[] = {"none", "client", "client-untrusted", "client-expired"};
-  static const char* ownServer[] = {"server", "server", "server", "expired", "notyet", "selfsigned", "keymismatch"};
-  std::string ownCert = ioraClient ? ownClient[sim::draw(4)] : ownServer[sim::draw(7)];
-  static const char* targets[] = {"10.0.0.2", "good.example", "other.example", "good.example"};
-  std::string target = targets[sim::draw(4)];
+  static const char* ownServer[] = {"server", "expired", "notyet", "selfsigned", "keymismatch"};
+  std::string ownCert = ioraClient ? ownClient[biased(4, 400)] : ownServer[biased(5, 800)];
+  static const char* targets[] = {"good.example", "10.0.0.2", "other.example"};
+  std::string target = targets[biased(3, 450)];
   bool syncApi = sim::draw(2) == 1;
   bool earlySend = sim::draw(2) == 1;
   // peer
-  static const int pk[] = {P_TLS, P_TLS, P_TLS, P_TLS, P_TLS, P_TLS, P_PLAINTEXT, P_GARBAGE, P_TLS_RST, P_SILENT};
-  int peerKind = pk[sim::draw(10)];
-  static const char* peerSrvCerts[] = {"server", "server", "selfsigned", "expired", "notyet", "wrongname", "otherca-server"};
-  static const char* peerCliCerts[] = {"none", "client", "client", "client-untrusted", "client-expired"};
-  std::string peerCert = ioraClient ? peerSrvCerts[sim::draw(7)] : peerCliCerts[sim::draw(5)];
-  int peerMax = VERS[sim::draw(2) ? 3 : sim::draw(4)];
-  bool peerWantsClientCert = sim::draw(4) == 3;
+  static const int pk[] = {P_TLS, P_PLAINTEXT, P_GARBAGE, P_TLS_RST, P_SILENT};
+  int peerKind = pk[biased(5, 750)];
+  static const char* peerSrvCerts[] = {"server", "selfsigned", "expired", "notyet", "wrongname", "otherca-server"};
+  static const char* peerCliCerts[] = {"client", "none", "client-untrusted", "client-expired"};
+  std::string peerCert = ioraClient ? peerSrvCerts[biased(6, 550)] : peerCliCerts[biased(4, 500)];
+  static const int peerMaxV[] = {TLS1_3_VERSION, TLS1_2_VERSION, TLS1_1_VERSION, TLS1_VERSION};
+  int peerMax = peerMaxV[biased(4, 550)];
+  bool peerWantsClientCert = biased(2, 800) == 1;
+  bool reconfigure = httpMode && biased(2, 750) == 1; // http: the TLS configuration is set AFTER the client was first used
+  if (httpMode) { enabled = true; modeSet = true; cfgMin = 0; ciphers = ""; } // HttpClient exposes none of these
   // clock: 0 stays in 2030, 1 = 2036 from the beginning, 2 = 2046 from the beginning, 3 = jumps to 2046 after the transport was started
-  static const int clocks[] = {0, 0, 0, 0, 1, 2, 3, 0};
-  int clockMode = clocks[sim::draw(8)];
+  int clockMode = (int)biased(4, 750);
   std::string garbage = hx::keyed_bytes(sim::draw(1u << 30), 64 + sim::draw(400));
   if (sim::draw(2)) garbage[0] = 0x16, garbage[1] = 0x03, garbage[2] = 0x03; // looks like a TLS record header
   // network
@@ -125,6 +133,9 @@ extern "C" void harness_run()
   nc.short_read_permille = sr[sim::draw(4)];
   nc.short_write_permille = sr[sim::draw(4)];
   nc.connect_immediate_permille = sim::draw(4) == 3 ? 500 : 0;
+  // a peer that writes without reading must be able to finish its write: otherwise it and the handshaking engine block each other
+  // until the handshake timeout, which the engine spends busy-polling (millions of steps, no property in sight)
+  if (peerKind == P_PLAINTEXT || peerKind == P_GARBAGE) { nc.sndbuf = std::max<size_t>(nc.sndbuf, 4096); nc.rcvbuf = std::max<size_t>(nc.rcvbuf, 4096); }
   nc.tap = true;
   TransportConfig tc;
   tc.useEdgeTriggered = sim::draw(2) == 0;
@@ -137,6 +148,7 @@ extern "C" void harness_run()
 
   const std::string ioraMark = "IORA-APP-" + hx::hex(hx::keyed_bytes(0xA11CE, 12));
   const std::string peerMark = "PEER-APP-" + hx::hex(hx::keyed_bytes(0xB0B, 12));
+  const std::string httpResp = "HTTP/1.1 200 OK\r\nContent-Length: " + std::to_string(peerMark.size()) + "\r\nConnection: close\r\n\r\n" + peerMark;
 
   auto& T = ioraClient ? tc.clientTls : tc.serverTls;
   T.enabled = enabled;
@@ -149,14 +161,14 @@ extern "C" void harness_run()
   else if (ownCert != "none") { T.certFile = cd + "/" + ownCert + ".pem"; T.keyFile = cd + "/" + ownCert + ".key"; }
   // the "system" trust store OpenSSL falls back to when no CA is configured
   setenv("SSL_CERT_DIR", "/nonexistent-verif", 1);
-  setenv("SSL_CERT_FILE", anchor == "none+system=ca" ? (cd + "/ca.pem").c_str() : "/nonexistent-verif.pem", 1);
-  const std::string effAnchor = anchor == "none+system=ca" ? "ca" : anchor; // for the iora CLIENT; a server has no system fallback
+  setenv("SSL_CERT_FILE", systemCa ? (cd + "/ca.pem").c_str() : "/nonexistent-verif.pem", 1);
+  const std::string effAnchor = anchor == "none" && systemCa ? "ca" : anchor; // for the iora CLIENT; a server has no system fallback
   int year = clockMode == 1 ? 2036 : clockMode >= 2 ? 2046 : 2030;
 
-  sim::notef("role=%s tls-config{enabled=%d mode=%s verifyPeer=%d anchor=%s minVersion=%s ciphers='%s' own-cert=%s} requested=%s %s%s peer{%s cert=%s max=%s wantsClientCert=%d} clock=%d(year %d at handshake) api=%s earlySend=%d",
-             ioraClient ? "iora-client" : "iora-server", enabled, modeSet ? "set" : "None", verify, anchor.c_str(), vname(cfgMin), ciphers.c_str(), ownCert.c_str(),
+  sim::notef("role=%s tls-config{enabled=%d mode=%s verifyPeer=%d anchor=%s%s minVersion=%s ciphers='%s' own-cert=%s} requested=%s %s%s peer{%s cert=%s max=%s wantsClientCert=%d} clock=%d(year %d at handshake) api=%s earlySend=%d%s",
+             ioraClient ? "iora-client" : "iora-server", enabled, modeSet ? "set" : "None", verify, anchor.c_str(), systemCa ? "(system store: ca)" : "(system store: empty)", vname(cfgMin), ciphers.c_str(), ownCert.c_str(),
              reqTls ? "TLS" : "plaintext", ioraClient ? "target=" : "", ioraClient ? target.c_str() : "", pkname[peerKind], peerCert.c_str(), vname(peerMax), peerWantsClientCert,
-             clockMode, year, syncApi ? "connectSync" : "connect", earlySend);
+             clockMode, year, httpMode ? "HttpClient.get" : syncApi ? "connectSync" : "connect", earlySend, reconfigure ? " TLS-CONFIG-SET-AFTER-FIRST-USE" : "");
   sim::notef("net sndbuf=%zu rcvbuf=%zu mss=%zu lat=%lluus shortR=%u shortW=%u ET=%d chunk=%zu", nc.sndbuf, nc.rcvbuf, nc.mss, (unsigned long long)nc.latency_ns / 1000, nc.short_read_permille,
              nc.short_write_permille, tc.useEdgeTriggered, tc.ioReadChunk);
 
@@ -173,38 +185,7 @@ extern "C" void harness_run()
   if (clockMode == 2) sim::wall_jump_ms(16 * YEAR_MS);
 
   Obs o;
-  auto tr = Transport::tcp(tc);
-  tr->onConnect([&](SessionId sid, const TransportAddress&)
-  {
-    std::lock_guard<std::mutex> g(o.mx);
-    if (o.sid == 0) o.sid = sid;
-    o.announced = true;
-    o.cv.notify_all();
-  });
-  tr->onAccept([&](SessionId sid, const TransportAddress&)
-  {
-    { std::lock_guard<std::mutex> g(o.mx); if (o.sid == 0) o.sid = sid; }
-    // queued while the handshake is in progress; must never leave in clear
-    if (earlySend) tr->send(sid, ioraMark.data(), ioraMark.size());
-  });
-  tr->onData([&](SessionId, iora::core::BufferView d, std::chrono::steady_clock::time_point)
-  {
-    std::lock_guard<std::mutex> g(o.mx);
-    o.delivered.append((const char*)d.data(), d.size());
-    o.cv.notify_all();
-  });
-  tr->onClose([&](SessionId, const TransportErrorInfo& e)
-  {
-    std::lock_guard<std::mutex> g(o.mx);
-    o.closed = true;
-    o.closeMsg = e.message;
-    o.cv.notify_all();
-  });
-  auto sr0 = tr->start();
-  bool started = sr0.isOk();
-  if (!started) sim::count("c07.start_refused", 1);
-  if (clockMode == 3) sim::wall_jump_ms(16 * YEAR_MS);
-
+  bool started = false;
   // ---- peers
   auto peer_ctx = [&](bool server) -> SSL_CTX*
   {
@@ -251,9 +232,23 @@ extern "C" void harness_run()
       {
         { std::lock_guard<std::mutex> g(o.mx); o.peerHandshakeOk = true; o.peerVersion = SSL_version(ssl); }
         if (X509* pc = SSL_get_peer_certificate(ssl)) { o.peerSawClientCert = true; X509_free(pc); }
-        SSL_write(ssl, peerMark.data(), (int)peerMark.size());
         std::string got;
-        ssl_read_some(ssl, got, ioraMark.size());
+        if (httpMode)
+        {
+          std::string buf(512, '\0');
+          while (got.find("\r\n\r\n") == std::string::npos)
+          {
+            int n = SSL_read(ssl, &buf[0], (int)buf.size());
+            if (n <= 0) break;
+            got.append(buf.data(), (size_t)n);
+          }
+          if (got.find("\r\n\r\n") != std::string::npos) SSL_write(ssl, httpResp.data(), (int)httpResp.size());
+        }
+        else
+        {
+          SSL_write(ssl, peerMark.data(), (int)peerMark.size());
+          ssl_read_some(ssl, got, ioraMark.size());
+        }
         { std::lock_guard<std::mutex> g(o.mx); o.peerGot = got; }
         SSL_shutdown(ssl);
       }
@@ -263,7 +258,7 @@ extern "C" void harness_run()
     }
     else if (peerKind == P_PLAINTEXT || peerKind == P_GARBAGE)
     {
-      peer::write_all(fd, peerKind == P_PLAINTEXT ? peerMark : garbage);
+      peer::write_all(fd, peerKind == P_PLAINTEXT ? (httpMode ? httpResp : peerMark) : garbage);
       std::string got;
       for (int i = 0; i < 6; i++) if (peer::read_some(fd, got, 4096, 1000000000ull) <= 0) break;
       std::lock_guard<std::mutex> g(o.mx);
@@ -284,71 +279,164 @@ extern "C" void harness_run()
     if (fd >= 0) ::close(fd);
   };
 
-  std::thread peerThr;
-  int plfd = -1;
-  if (started && ioraClient)
+  if (httpMode)
   {
-    plfd = peer::listen_on("10.0.0.2", 6000);
+    // ---- through HttpClient: the same cell, configured with HttpClient::TlsConfig
+    dnsw::Server dns;
+    dns.answer = dnsw::table_answer({{"good.example", "10.0.0.2"}, {"other.example", "10.0.0.2"}});
+    dns.start();
+    int plfd = peer::listen_on("10.0.0.2", 6000);
     if (plfd < 0) sim::fail("harness", "peer listen failed");
-    peerThr = std::thread([&]
+    HttpClient::Config hc;
+    hc.connectTimeout = std::chrono::milliseconds(3000);
+    hc.requestTimeout = std::chrono::milliseconds(4000);
+    bool gotResponse = false, configRefused = false;
+    std::string body;
+    std::thread peerThr;
     {
-      sim::name_thread("peer-server");
-      int fd = peer::accept_one(plfd, 8000000000ull);
-      if (fd >= 0) run_peer(fd, true);
-      std::lock_guard<std::mutex> g(o.mx);
-      o.peerDone = true;
-      o.cv.notify_all();
-    });
-    TlsMode tm = reqTls ? TlsMode::Client : TlsMode::None;
-    if (syncApi)
-    {
-      auto r = tr->connectSync(target, 6000, tm, std::chrono::milliseconds(6000));
-      std::lock_guard<std::mutex> g(o.mx);
-      if (r.isOk()) { o.sid = r.value(); o.announced = true; }
-      else o.closed = true;
-    }
-    else
-    {
-      auto r = tr->connect(target, 6000, tm);
-      if (r.isOk())
+      HttpClient client(hc);
+      HttpClient::TlsConfig want;
+      want.verifyPeer = verify;
+      if (anchor == "ca" || anchor == "otherca") want.caFile = cd + "/" + anchor + ".pem";
+      if (ownCert != "none") { want.clientCertFile = cd + "/" + ownCert + ".pem"; want.clientKeyFile = cd + "/" + ownCert + ".key"; }
+      if (reconfigure)
       {
-        { std::lock_guard<std::mutex> g(o.mx); o.sid = r.value(); }
-        if (earlySend) tr->send(r.value(), ioraMark.data(), ioraMark.size());
+        HttpClient::TlsConfig first;
+        first.verifyPeer = false;
+        client.setTlsConfig(first);
+        client.setDnsServers({"10.0.0.53"}); // initialises the transport with the FIRST configuration
+        // either the new configuration takes effect or it is refused; what must not happen is that it is silently ignored
+        try { client.setTlsConfig(want); } catch (const std::logic_error&) { configRefused = true; sim::count("c07.late_tls_config_refused", 1); }
       }
-      else { std::lock_guard<std::mutex> g(o.mx); o.closed = true; }
-    }
-  }
-  else if (started)
-  {
-    auto lr = tr->addListener("127.0.0.1", 5000, reqTls ? TlsMode::Server : TlsMode::None);
-    if (lr.isErr()) { sim::count("c07.listener_refused", 1); started = false; }
-    else
+      else
+      {
+        client.setTlsConfig(want);
+        client.setDnsServers({"10.0.0.53"});
+      }
+      if (clockMode == 3) sim::wall_jump_ms(16 * YEAR_MS);
       peerThr = std::thread([&]
       {
-        sim::name_thread("peer-client");
-        int fd = -1;
-        for (int a = 0; a < 50 && fd < 0; a++) { fd = peer::connect_to("127.0.0.1", 5000, 2000000000ull); if (fd < 0) sim::sleep_ns(1000000); }
-        if (fd >= 0) run_peer(fd, false);
+        sim::name_thread("peer-server");
+        int fd = peer::accept_one(plfd, 12000000000ull);
+        if (fd >= 0) { peer::set_rcvtimeo(fd, 4000000000ull); peer::set_sndtimeo(fd, 4000000000ull); }
+        if (fd >= 0) run_peer(fd, true);
+      });
+      if (!configRefused)
+      try
+      {
+        auto r = client.get(std::string(reqTls ? "https" : "http") + "://" + target + ":6000/" + ioraMark);
+        gotResponse = true;
+        body = r.body;
+      }
+      catch (const std::exception& e) { o.closeMsg = e.what(); }
+      peerThr.join();
+    }
+    dns.shutdown();
+    ::close(plfd);
+    o.announced = gotResponse;
+    o.delivered = body;
+    started = true;
+  }
+  else
+  {
+    auto tr = Transport::tcp(tc);
+    tr->onConnect([&](SessionId sid, const TransportAddress&)
+    {
+      std::lock_guard<std::mutex> g(o.mx);
+      if (o.sid == 0) o.sid = sid;
+      o.announced = true;
+      o.cv.notify_all();
+    });
+    tr->onAccept([&](SessionId sid, const TransportAddress&)
+    {
+      { std::lock_guard<std::mutex> g(o.mx); if (o.sid == 0) o.sid = sid; }
+      // queued while the handshake is in progress; must never leave in clear
+      if (earlySend) tr->send(sid, ioraMark.data(), ioraMark.size());
+    });
+    tr->onData([&](SessionId, iora::core::BufferView d, std::chrono::steady_clock::time_point)
+    {
+      std::lock_guard<std::mutex> g(o.mx);
+      o.delivered.append((const char*)d.data(), d.size());
+      o.cv.notify_all();
+    });
+    tr->onClose([&](SessionId, const TransportErrorInfo& e)
+    {
+      std::lock_guard<std::mutex> g(o.mx);
+      o.closed = true;
+      o.closeMsg = e.message;
+      o.cv.notify_all();
+    });
+    auto sr0 = tr->start();
+    started = sr0.isOk();
+    if (!started) sim::count("c07.start_refused", 1);
+    if (clockMode == 3) sim::wall_jump_ms(16 * YEAR_MS);
+
+    std::thread peerThr;
+    int plfd = -1;
+    if (started && ioraClient)
+    {
+      plfd = peer::listen_on("10.0.0.2", 6000);
+      if (plfd < 0) sim::fail("harness", "peer listen failed");
+      peerThr = std::thread([&]
+      {
+        sim::name_thread("peer-server");
+        int fd = peer::accept_one(plfd, 8000000000ull);
+        if (fd >= 0) run_peer(fd, true);
         std::lock_guard<std::mutex> g(o.mx);
         o.peerDone = true;
         o.cv.notify_all();
       });
-  }
-  if (started)
-  {
-    SessionId sid = 0;
-    {
-      std::unique_lock<std::mutex> lk(o.mx);
-      o.cv.wait_for(lk, std::chrono::seconds(12), [&] { return o.announced || o.closed || o.peerDone; });
-      sid = o.sid;
-      if (o.announced) { lk.unlock(); tr->send(sid, ioraMark.data(), ioraMark.size()); lk.lock(); }
-      o.cv.wait_for(lk, std::chrono::seconds(8), [&] { return o.peerDone; });
+      TlsMode tm = reqTls ? TlsMode::Client : TlsMode::None;
+      if (syncApi)
+      {
+        auto r = tr->connectSync(target, 6000, tm, std::chrono::milliseconds(6000));
+        std::lock_guard<std::mutex> g(o.mx);
+        if (r.isOk()) { o.sid = r.value(); o.announced = true; }
+        else o.closed = true;
+      }
+      else
+      {
+        auto r = tr->connect(target, 6000, tm);
+        if (r.isOk())
+        {
+          { std::lock_guard<std::mutex> g(o.mx); o.sid = r.value(); }
+          if (earlySend) tr->send(r.value(), ioraMark.data(), ioraMark.size());
+        }
+        else { std::lock_guard<std::mutex> g(o.mx); o.closed = true; }
+      }
     }
-    if (sid) tr->close(sid);
+    else if (started)
+    {
+      auto lr = tr->addListener("127.0.0.1", 5000, reqTls ? TlsMode::Server : TlsMode::None);
+      if (lr.isErr()) { sim::count("c07.listener_refused", 1); started = false; }
+      else
+        peerThr = std::thread([&]
+        {
+          sim::name_thread("peer-client");
+          int fd = -1;
+          for (int a = 0; a < 50 && fd < 0; a++) { fd = peer::connect_to("127.0.0.1", 5000, 2000000000ull); if (fd < 0) sim::sleep_ns(1000000); }
+          if (fd >= 0) run_peer(fd, false);
+          std::lock_guard<std::mutex> g(o.mx);
+          o.peerDone = true;
+          o.cv.notify_all();
+        });
+    }
+    if (started)
+    {
+      SessionId sid = 0;
+      {
+        std::unique_lock<std::mutex> lk(o.mx);
+        o.cv.wait_for(lk, std::chrono::seconds(12), [&] { return o.announced || o.closed || o.peerDone; });
+        sid = o.sid;
+        if (o.announced) { lk.unlock(); tr->send(sid, ioraMark.data(), ioraMark.size()); lk.lock(); }
+        o.cv.wait_for(lk, std::chrono::seconds(8), [&] { return o.peerDone; });
+      }
+      if (sid) tr->close(sid);
+    }
+    if (peerThr.joinable()) peerThr.join();
+    tr->stop();
+    if (plfd >= 0) ::close(plfd);
   }
-  if (peerThr.joinable()) peerThr.join();
-  tr->stop();
-  if (plfd >= 0) ::close(plfd);
 
   // ---- what iora put on the wire
   std::string wire;
@@ -358,6 +446,20 @@ extern "C" void harness_run()
   const bool peerIsTls = peerKind == P_TLS;
   bool admitted = o.announced || !o.delivered.empty() || (peerIsTls && o.peerGot.find(ioraMark.substr(0, 12)) != std::string::npos);
   sim::count(admitted ? "c07.sessions_admitted" : "c07.sessions_refused", 1);
+  {
+    // reach counters: in how many cells does the rule table FORBID a session (and why), in how many may there be one
+    const CertFact* pc0 = fact(peerCert);
+    bool authOk = !verify || (ioraClient ? (chain_ok(pc0, effAnchor) && time_ok(pc0, year) && (target == "10.0.0.2" || name_ok(pc0, target))) : (pc0 && chain_ok(pc0, anchor) && time_ok(pc0, year)));
+    bool mayAdmit = reqTls && peerIsTls && peerMax >= TLS1_2_VERSION && authOk && started;
+    if (reqTls && started)
+    {
+      sim::count(mayAdmit ? "c07.cells_session_allowed" : "c07.cells_session_forbidden", 1);
+      if (!peerIsTls) sim::count("c07.forbidden_peer_not_tls", 1);
+      else if (peerMax < TLS1_2_VERSION) sim::count("c07.forbidden_version_below_1_2", 1);
+      else if (!authOk) sim::count("c07.forbidden_peer_not_authenticated", 1);
+      if (mayAdmit && admitted) sim::count("c07.allowed_and_established", 1);
+    }
+  }
   if (reqTls)
   {
     // never clear text, whatever the configuration
@@ -380,10 +482,11 @@ extern "C" void harness_run()
           bool ok = chain_ok(pc, effAnchor) && time_ok(pc, year);
           bool byName = target != "10.0.0.2";
           if (!ok)
-            sim::fail("c07-unauthenticated-server", "verifyPeer on, anchor=%s, year %d: session announced to a server presenting '%s' (issuer %s, valid %d-%d)", anchor.c_str(), year, peerCert.c_str(),
+            sim::fail("c07-unauthenticated-server", "verifyPeer on, anchor=%s%s, year %d: session announced to a server presenting '%s' (issuer %s, valid %d-%d)", anchor.c_str(), systemCa ? " (system store: ca)" : "", year, peerCert.c_str(),
                       pc ? pc->issuer : "-", pc ? pc->notBeforeYear : 0, pc ? pc->notAfterYear : 0);
           if (byName && !name_ok(pc, target))
-            sim::fail("c07-wrong-name", "verifyPeer on: connection made to host name %s was announced although the server's certificate '%s' is not issued for that name", target.c_str(), peerCert.c_str());
+            sim::fail("c07-wrong-name", "verifyPeer on: %s to host name %s %s although the server's certificate '%s' is not issued for that name", httpMode ? "HttpClient request" : "Transport connection",
+                      target.c_str(), httpMode ? "returned a response" : "was announced", peerCert.c_str());
         }
         else
         {
